@@ -214,6 +214,179 @@ static int run_c03(uint64_t seed, int from, int to, int per_class) {
     return 0;
 }
 
+
+// ---------------------------------------------------------------------------------------------------------------- C02
+// images file: repeated records [u32 type][u32 objectSize][u32 len][len bytes]  (len >= objectSize: image incl. trailing pad)
+struct Image { uint32_t type, osz; std::vector<uint8_t> b; std::string origin; };
+
+static std::vector<Image> load_images(const char * path) {
+    std::vector<Image> v; FILE * f = fopen(path, "rb"); if (!f) { fprintf(stderr, "HARNESS: cannot open %s\n", path); _exit(2); }
+    uint32_t h[3];
+    while (fread(h, 4, 3, f) == 3) { Image im; im.type = h[0]; im.osz = h[1]; im.b.resize(h[2]); if (h[2] && fread(im.b.data(), 1, h[2], f) != h[2]) break; v.push_back(im); }
+    fclose(f); return v;
+}
+
+static size_t g_alloc_cap = 0;   // operator new above this throws bad_alloc (0 = off)
+void * operator new(size_t n) { if (g_alloc_cap && n > g_alloc_cap) throw std::bad_alloc(); void * p = malloc(n ? n : 1); if (!p) throw std::bad_alloc(); return p; }
+void operator delete(void * p) noexcept { free(p); }
+void operator delete(void * p, size_t) noexcept { free(p); }
+void * operator new[](size_t n) { return operator new(n); }
+void operator delete[](void * p) noexcept { free(p); }
+void operator delete[](void * p, size_t) noexcept { free(p); }
+
+struct Decoded { ObjectHeaderBase * o; const vr::ClassInfo * ci; long long consumed; bool good; std::string shape; std::vector<bool> readmask; };
+
+static std::string shape_of(const Obj & ob, long long consumed, bool good) {
+    std::string s = std::to_string(consumed) + (good ? "g" : "b") + ":" + std::to_string(ob.o->calculateObjectSize());
+    for (auto & f : ob.f) {
+        ol::Role ro = ol::role(ob, f);
+        if (f.variable()) s += ":" + std::to_string(f.count());
+        else if (ro == ol::R_NONSER) s += ":n" + std::to_string(f.as_u64());
+    }
+    std::string cls = ob.ci->name;
+    if (cls == "SerialEvent") s += ":f" + std::to_string(ob.u("flags") & 12);
+    if (cls == "CanErrorFrame") s += ":l" + std::to_string(ob.u("length") > 0);
+    if (cls == "CanFdMessage64") s += ":x" + std::to_string(static_cast<CanFdMessage64 *>(ob.o)->hasExtData());
+    if (cls == "CanFdErrorFrame64") s += ":x" + std::to_string(static_cast<CanFdErrorFrame64 *>(ob.o)->hasExtData());
+    s += ":t" + std::to_string((unsigned)ob.o->objectType) + ":h" + std::to_string(ob.o->headerSize) + ":v" + std::to_string(ob.o->headerVersion);
+    return s;
+}
+
+static bool decode_image(const std::vector<uint8_t> & img, uint32_t type, Decoded & d, bool want_mask = false) {
+    d.o = File::createObject((ObjectType)type); d.ci = nullptr; d.consumed = -1; d.good = false;
+    if (!d.o) return false;
+    d.ci = ol::class_of(d.o);
+    if (!d.ci) { delete d.o; d.o = nullptr; return false; }
+    MemFile in; in.buf = img; in.trace = want_mask;
+    try { d.o->read(in); } catch (std::exception &) { delete d.o; d.o = nullptr; return false; }
+    if (want_mask) { d.readmask.assign(img.size(), false); for (auto & c : in.rd) for (size_t k = 0; k < c.n && c.off + k < img.size(); k++) d.readmask[c.off + k] = true; }
+    d.good = !in.failb && in.min_g >= 0;
+    d.consumed = in.failb ? -1 : (long long)in.g;
+    Obj ob(d.ci, d.o);
+    d.shape = shape_of(ob, d.consumed, d.good);
+    return true;
+}
+
+// compare encode(obj) with img under rule (a). returns empty string if equal, else description "member@offset"
+static std::string roundtrip_diff(const Decoded & d, const std::vector<uint8_t> & img, const std::set<unsigned> & padset) {
+    MemFile out; out.trace = true;
+    d.o->write(out);
+    Obj ob(d.ci, d.o);
+    // map output offset -> member path
+    auto member_at = [&](size_t off) -> std::string {
+        for (auto & c : out.wr) {
+            if (off < c.off || off >= c.off + c.n) continue;
+            const uint8_t * s = static_cast<const uint8_t *>(c.src) + (off - c.off);
+            for (auto & f : ob.f) {
+                if (f.variable()) { if (f.nbytes() && s >= f.data() && s < f.data() + f.nbytes()) return f.path; }
+                else { const uint8_t * p = static_cast<const uint8_t *>(f.ptr); if (s >= p && s < p + f.elem * f.n) return f.path; }
+            }
+            return "<padding>";
+        }
+        return "<none>";
+    };
+    const std::vector<uint8_t> & e = out.buf;
+    size_t n = std::min(e.size(), img.size());
+    for (size_t i = 0; i < n; i++) {
+        if (e[i] == img[i]) continue;
+        std::string m = member_at(i);
+        const vr::Field * f = ob.find(m);
+        if (f) {
+            ol::Role ro = ol::role(ob, *f);
+            if (m == "headerSize" || m == "objectSize" || ro == ol::R_LEN || ro == ol::R_DERIVED) continue;   // recomputed by design: checked below
+        }
+        return m + "@" + std::to_string(i) + " wrote " + vr::hex(&e[i], 1) + " image " + vr::hex(&img[i], 1);
+    }
+    if (e.size() != img.size()) return "<length> encoded " + std::to_string(e.size()) + " image " + std::to_string(img.size());
+    // recomputed fields against independently recomputed values
+    uint16_t hs; uint32_t osz; memcpy(&hs, &e[4], 2); memcpy(&osz, &e[8], 4);
+    if (hs != header_bytes(d.ci->header)) return "headerSize(recomputed) " + std::to_string(hs);
+    unsigned pad = padset.count((unsigned)d.o->objectType) ? osz % 4 : 0;
+    if ((size_t)osz + pad != e.size() && (size_t)osz != e.size()) return "objectSize(recomputed) " + std::to_string(osz) + " emitted " + std::to_string(e.size());
+    for (auto & l : ol::LENS) {
+        if (strcmp(l.cls, d.ci->name)) continue;
+        const vr::Field & lf = ob.get(l.len); const vr::Field & cf = ob.get(l.cont);
+        if (!ol::active(ob, cf)) continue;
+        uint64_t mask = lf.elem >= 8 ? ~0ULL : ((1ULL << (8 * lf.elem)) - 1);
+        if (lf.as_u64() != ((cf.nbytes() / l.unit) & mask)) return std::string(l.len) + "(recomputed) " + std::to_string(lf.as_u64()) + " container " + std::to_string(cf.nbytes());
+    }
+    return "";
+}
+
+static int run_c02(uint64_t seed, int from, int to, const char * path, int extra_random) {
+    std::set<unsigned> padset = parse_set("VERIF_PADSET");
+    ol::spec_selfcheck();
+    std::vector<Image> imgs = load_images(path);
+    g_alloc_cap = 64u << 20;
+    static const uint8_t bvals[] = {0x00, 0x01, 0x7f, 0x80, 0xff};
+    for (int c = from; c < to && c < (int)imgs.size(); c++) {
+        hc::begin_case(std::to_string(c));
+        const Image & im = imgs[c];
+        long mutated = 0, preserved = 0, undecodable = 0, not_field = 0;
+        Decoded d0;
+        std::string cls = "type" + std::to_string(im.type);
+        if (!decode_image(im.b, im.type, d0, true)) { hc::viol(cls + ":reference-image-not-decodable", "image " + std::to_string(c)); continue; }
+        cls = d0.ci->name;
+        bool whole = d0.good && d0.consumed == (long long)im.b.size();
+        if (!whole) hc::viol(cls + ":decode-consumed!=image", "consumed " + std::to_string(d0.consumed) + " of " + std::to_string(im.b.size()) + " image " + std::to_string(c));
+        std::string df = roundtrip_diff(d0, im.b, padset);
+        if (!df.empty()) hc::viol(cls + ":reencode-differs:" + df.substr(0, df.find('@')), df + " image " + std::to_string(c) + " objectSize " + std::to_string(im.osz));
+        std::set<std::string> reported;
+        auto try_image = [&](const std::vector<uint8_t> & m, const char * what, size_t off) {
+            mutated++;
+            Decoded d;
+            if (!decode_image(m, im.type, d)) { undecodable++; return; }
+            if (d.shape == d0.shape && d.good) {
+                preserved++;
+                std::string x = roundtrip_diff(d, m, padset);
+                if (!x.empty()) {
+                    std::string k = cls + ":reencode-differs-after-overwrite:" + x.substr(0, x.find('@'));
+                    if (!reported.count(k)) { reported.insert(k); hc::viol(k, x + " after " + what + " at offset " + std::to_string(off) + " image " + std::to_string(c)); }
+                }
+            }
+            delete d.o;
+        };
+        size_t end = std::min<size_t>(im.osz, im.b.size());
+        std::vector<uint8_t> m = im.b;
+        // bytes the decoder skips (alignment padding, unused part of the serial-event union) are not field values: out of scope
+        auto isfield = [&](size_t off, size_t w) { for (size_t k = 0; k < w; k++) if (!d0.readmask[off + k]) return false; return true; };
+        for (size_t off = 16; off < end; off++) {
+            if (!isfield(off, 1)) { not_field++; continue; }
+            uint8_t old = m[off];
+            uint8_t vals[7] = {bvals[0], bvals[1], bvals[2], bvals[3], bvals[4], (uint8_t)(old ^ 1), (uint8_t)(old ^ 0x80)};
+            for (int k = 0; k < 7; k++) { if (vals[k] == old) continue; m[off] = vals[k]; try_image(m, "byte", off); }
+            m[off] = old;
+        }
+        for (size_t w = 2; w <= 8; w *= 2)
+            for (size_t off = 16; off + w <= end; off += w) {
+                if (!isfield(off, w)) continue;
+                uint8_t save[8]; memcpy(save, &m[off], w);
+                for (int k = 0; k < 5; k++) {
+                    uint8_t g[8];
+                    switch (k) { case 0: memset(g, 0, w); break; case 1: memset(g, 0, w); g[0] = 1; break; case 2: memset(g, 0xff, w); g[w - 1] = 0x7f; break;
+                        case 3: memset(g, 0, w); g[w - 1] = 0x80; break; default: memset(g, 0xff, w); }
+                    if (!memcmp(g, save, w)) continue;
+                    memcpy(&m[off], g, w); try_image(m, w == 2 ? "group2" : w == 4 ? "group4" : "group8", off);
+                }
+                memcpy(&m[off], save, w);
+            }
+        // random simultaneous overwrites (pairs/triples)
+        Rng r(Rng::mix(seed, c));
+        for (int i = 0; i < extra_random && end > 17; i++) {
+            std::vector<uint8_t> mm = im.b; int n = 2 + r.below(2);
+            size_t first = 0;
+            for (int k = 0; k < n; k++) { size_t off = 16 + r.below((uint32_t)(end - 16)); if (!isfield(off, 1)) continue; if (!k) first = off; mm[off] = r.chance(1, 2) ? bvals[r.below(5)] : (uint8_t)r.next(); }
+            try_image(mm, "multi", first);
+        }
+        char buf[300];
+        snprintf(buf, sizeof buf, "{\"images\":1,\"whole\":%d,\"skipped_nonfield_bytes\":%ld,\"mutated\":%ld,\"shape_preserving\":%ld,\"undecodable\":%ld,\"types\":[%u],\"samples\":[%s]}", whole ? 1 : 0, not_field, mutated, preserved, undecodable,
+                 im.type, (c % 64 == 0) ? hc::jstr(std::string(d0.ci->name) + " image " + std::to_string(c) + " " + vr::hex(im.b.data(), im.b.size(), 40)).c_str() : "");
+        hc::stat(buf);
+        delete d0.o;
+    }
+    return 0;
+}
+
 // ---------------------------------------------------------------------------------------------------------------- C17
 static const char * expected_class(unsigned code) {
     for (auto & t : ol::TYPES) if (t.code == code) return t.cls;
@@ -321,6 +494,7 @@ int main(int argc, char ** argv) {
     int from = atoi(argv[3]), to = atoi(argv[4]);
     if (mode == "c03") return run_c03(seed, from, to, argc > 5 ? atoi(argv[5]) : 100);
     if (mode == "c17") return run_c17(seed);
+    if (mode == "c02") return run_c02(seed, from, to, argc > 5 ? argv[5] : "", argc > 6 ? atoi(argv[6]) : 0);
     if (mode == "nclasses") { printf("%d\n", vr::nclasses); return 0; }
     return 2;
 }
